@@ -63,6 +63,10 @@ def setup(J):
             # the consumer names the pipe through a modifier that looks at the end of the path ({i:in|%.fifo}.fifo)
             jobs.append({"id": "C17-n1-s1-m2-consumer-input-through-suffix-modifier", "prop": "C17", "kind": "stream", "mode": "delay", "delay": 1, "budget": J.budget(tier, 30, 200), "oracles": [], "events_dep": False, "force_all": -1,
                          "args": {"n": "1", "size": "1", "max": "2", "modcons": "1"}})
+            # "whenever enough task slots exist for each producer and its consumer to run at the same time": multi-slot
+            # producer and consumer (2 + 2 of 4 slots) next to an unrelated 2-slot task competing for the slots
+            jobs.append({"id": "C17-n1-s1-m4-multi-slot-pair-and-side-task", "prop": "C17", "kind": "stream", "mode": "delay", "delay": 1 if q else 2, "budget": J.budget(tier, 30, 600), "oracles": [], "events_dep": False, "force_all": -1,
+                         "args": {"n": "1", "size": "1", "max": "4", "cores": "2", "sidecores": "2"}})
             # two streamed items in flight: a pass-through process notes the order in which they leave the producer
             for size, mx in ((1, 4),) if q else ((1, 4), (65537, 4), (1, 5)):
                 jobs.append({"id": f"C17-n2-s{size}-m{mx}-order", "prop": "C17", "kind": "stream", "mode": "delay", "delay": 1, "budget": J.budget(tier, 40, 300), "oracles": [], "events_dep": False, "force_all": -1,
